@@ -54,10 +54,13 @@ class RefWatch:
         self.stopped = None
         self.splits = ()           # ((elapsed, length), ...)
 
-    def proj(self):
-        # the stop instant is observable only while the watch is stopped
-        return (self.state, self.started,
-                self.stopped if self.state == 'STOPPED' else None, self.splits)
+    def proj(self, now=None):
+        # the same observables as _impl_proj: state, elapsed now, splits
+        try:
+            el = self._elapsed(_CLOCK[0] if now is None else now)
+        except RuntimeError:
+            el = 'RuntimeError'
+        return (self.state, el, self.splits)
 
     def _elapsed(self, now):
         if self.state == 'STOPPED':
@@ -181,19 +184,17 @@ def _impl_apply(w, op):
 
 
 def _impl_proj(w):
-    return (w._state, w._started_at,
-            w._stopped_at if w._state == 'STOPPED' else None,
-            tuple((s.elapsed, s.length) for s in w._splits))
+    """What can be observed of a watch through its public API at the current
+    clock reading (no private attribute is consulted): running / stopped,
+    elapsed (or RuntimeError), the splits."""
+    try:
+        el = w.elapsed()
+    except RuntimeError:
+        el = 'RuntimeError'
+    return ('STARTED' if w.has_started() else 'STOPPED' if w.has_stopped() else None,
+            el, tuple((s.elapsed, s.length) for s in w.splits))
 
 
-_KNOWN_ATTRS = ('_duration', '_started_at', '_stopped_at', '_state', '_splits')
-
-
-def _extras(w):
-    """Any further instance state (a real StopWatch has none): kept in the
-    canonical form so that objects differing in hidden state are never merged."""
-    return tuple(sorted((k, repr(v)) for k, v in w.__dict__.items()
-                        if k not in _KNOWN_ATTRS))
 
 
 def _same(a, b):
@@ -239,7 +240,7 @@ def _step(node, action):
     elif op == 'elapsed_max1' and got[0] == 'ret' and got[1] > 1:
         problem = {'kind': 'exceeds-maximum', 'got': got}
     elif mono and op == 'split' and got[0] == 'ret':
-        sp = _impl_proj(impl)[3]
+        sp = _impl_proj(impl)[2]
         if any(sp[i][0] > sp[i + 1][0] for i in range(len(sp) - 1)):
             problem = {'kind': 'decreasing-splits', 'got': sp}
     new = seq.Node(impl, ref, node.hist + (action,), now)
@@ -247,14 +248,22 @@ def _step(node, action):
 
 
 def _canon(node):
-    w = node.impl
-    st, a, sp = w._state, w._started_at, tuple((s.elapsed, s.length) for s in w._splits)
-    b = w._stopped_at
-    base = a if a is not None else node.extra
-    # translation in time is a symmetry only if absolute readings do not matter;
-    # the searches are therefore repeated from several clock origins (incl. 0)
-    return (st, None if a is None else 0, None if b is None else b - base,
-            node.extra - base, sp, node.ref.mono, _extras(w))
+    """Canonical state: every instance attribute of the real object (so hidden
+    state is never merged away); numeric attributes are taken relative to the
+    current clock reading (translation symmetry - valid only as far as absolute
+    readings do not matter, hence the additional searches from origins 0, -2)."""
+    now = node.extra
+    items = []
+    for k, v in sorted(node.impl.__dict__.items()):
+        if k == '_duration':
+            continue
+        if isinstance(v, (int, float)) and not isinstance(v, bool):
+            items.append((k, v - now))
+        elif k == '_splits' or (isinstance(v, tuple) and v and hasattr(v[0], 'elapsed')):
+            items.append((k, tuple((s.elapsed, s.length) for s in v)))
+        else:
+            items.append((k, repr(v)))
+    return (tuple(items), node.ref.mono)
 
 
 def _explore(job):
